@@ -45,6 +45,13 @@ Definition show_ri_m (r : route_info) : string :=
 Definition show_rip_m (r : route_info) : string :=
   if ri_set r then hx (ri_prefix r) else "-".
 
+Definition show_rd1 (r : rdnss) : string := dec_of_N (rd_life r) ++ ":" ++ show_servers (rd_servers r).
+Definition show_ds1 (d : dnssl) : string := dec_of_N (ds_life d) ++ ":" ++ show_servers (ds_names d).
+Definition show_ri1 (r : route_info) : string :=
+  dec_of_N (ri_len r) ++ "/" ++ dec_of_N (ri_prf r) ++ "/" ++ dec_of_N (ri_life r) ++ "/" ++ hx (ri_prefix r).
+Definition show_legacy (o : new_options) : string :=
+  "rdnss=" ++ show_rd_m (o_rdnss o) ++ " dnssl=" ++ show_ds_m (o_dnssl o) ++ " ri=" ++ show_ri_m (o_ri o) ++ " rip=" ++ show_rip_m (o_ri o).
+
 Definition proj_model (proj : string) (r : router) : string :=
   let o := r_opts r in
   if String.eqb proj "ret" then "ok"
@@ -53,17 +60,18 @@ Definition proj_model (proj : string) (r : router) : string :=
   else if String.eqb proj "omtu" then dec_of_N (o_mtu o)
   else if String.eqb proj "rmtu" then dec_of_N (r_mtu r)
   else if String.eqb proj "pfx" then joinc (map show_pi (r_prefixes r))
-  else if String.eqb proj "rdnss" then show_rd_m (o_rdnss o)
-  else if String.eqb proj "dnssl" then show_ds_m (o_dnssl o)
-  else if String.eqb proj "ri" then show_ri_m (o_ri o)
+  else if String.eqb proj "rdnss" then joins (map show_rd1 (o_rdnss_all o))
+  else if String.eqb proj "dnssl" then joins (map show_ds1 (o_dnssl_all o))
+  else if String.eqb proj "ri" then joins (map show_ri1 (o_routes o))
   else if String.eqb proj "rip" then show_rip_m (o_ri o)
+  else if String.eqb proj "legacy" then show_legacy o
   else "badproj".
 
 Definition show_router_all (r : router) : string :=
   hx (r_ip r) ++ " " ++ show_hdr r ++ " slla=" ++ hx (o_slla (r_opts r)) ++ " omtu=" ++ dec_of_N (o_mtu (r_opts r))
   ++ " rmtu=" ++ dec_of_N (r_mtu r) ++ " pfx=" ++ joinc (map show_pi (r_prefixes r))
-  ++ " rdnss=" ++ show_rd_m (o_rdnss (r_opts r)) ++ " dnssl=" ++ show_ds_m (o_dnssl (r_opts r))
-  ++ " ri=" ++ show_ri_m (o_ri (r_opts r)) ++ " rip=" ++ show_rip_m (o_ri (r_opts r)).
+  ++ " rdnss=" ++ joins (map show_rd1 (o_rdnss_all (r_opts r))) ++ " dnssl=" ++ joins (map show_ds1 (o_dnssl_all (r_opts r)))
+  ++ " ri=" ++ joins (map show_ri1 (o_routes (r_opts r))) ++ " legacy:" ++ show_legacy (r_opts r).
 
 (* ---------------- spec side rendering ---------------- *)
 Definition lastd {A} (l : list A) (d : A) : A := last l d.
@@ -71,7 +79,7 @@ Definition lastd {A} (l : list A) (d : A) : A := last l d.
 Definition show_opt_s (o : ndopt) : string :=
   match o with
   | OPrefix pl l a v p pfx => dec_of_N pl ++ "/" ++ sb l ++ sb a ++ "/" ++ dec_of_N v ++ "/" ++ dec_of_N p ++ "/" ++ hx pfx
-  | ORoute pl prf life _ => dec_of_N pl ++ "/" ++ dec_of_N prf ++ "/" ++ dec_of_N life
+  | ORoute pl prf life pfx => dec_of_N pl ++ "/" ++ dec_of_N prf ++ "/" ++ dec_of_N life ++ "/" ++ hx pfx
   | ORdnss life srv => dec_of_N life ++ ":" ++ show_servers srv
   | ODnssl life nm => dec_of_N life ++ ":" ++ show_servers nm
   | _ => "?"
@@ -97,12 +105,6 @@ Definition proj_spec (proj : string) (mac0 : bytes) (d : ra_info) : string :=
   else "badproj".
 
 (* ---------------- known defect classes: Model/Icmp6SpoofKnown.v ---------------- *)
-Definition key_of (proj : string) (p : bytes) (d : ra_info) : string :=
-  if String.eqb proj "rdnss" then (if known_rdnss_multiple d then "rdnss-multiple" else "-")
-  else if String.eqb proj "dnssl" then (if known_dnssl_multiple d then "dnssl-multiple" else "-")
-  else if String.eqb proj "ri" then (if known_ri_multiple d then "ri-multiple" else "-")
-  else "-".
-
 (* ---------------- kind ra ---------------- *)
 Definition std_src : bytes := [254;128;0;0;0;0;0;0;0;0;0;0;0;1;0;17].    (* fe80::1:11 *)
 Definition std_eth : bytes := [0;102;102;102;102;102].                   (* 00:66:66:66:66:66 *)
@@ -127,10 +129,9 @@ Definition do_ra (proj : string) (p : bytes) : string :=
   if xn_area p then out3 m "-" "-" else
   if blen p <? 16 then out3 m "-" "-" else
   match ra_decode_lenient p with
-  | Some d => let s := proj_spec proj std_eth d in
-              out3 m s (if String.eqb m s then "-" else key_of proj p d)
-  | None => let s := "err:EOther" in
-            out3 m s "-"
+  | Some d => if String.eqb proj "legacy" then out3 m "-" "-" else
+              out3 m (proj_spec proj std_eth d) "-"
+  | None => out3 m "err:EOther" "-"
   end.
 
 (* ---------------- kind h ---------------- *)
